@@ -303,14 +303,14 @@ pub struct CheckCfg {
 pub fn default_runs(prop: &str, tier: &str) -> u64 {
     let quick = tier != "thorough";
     match (prop, quick) {
-        ("C07", true) => 6_000,
-        ("C07", false) => 400_000,
-        ("C16", true) => 30_000,
-        ("C16", false) => 3_000_000,
-        ("C08", true) => 20_000,
-        ("C08", false) => 1_500_000,
-        (_, true) => 12_000,
-        (_, false) => 800_000,
+        ("C07", true) => 30_000,
+        ("C07", false) => 1_000_000,
+        ("C16", true) => 120_000,
+        ("C16", false) => 6_000_000,
+        ("C08", true) => 80_000,
+        ("C08", false) => 4_000_000,
+        (_, true) => 50_000,
+        (_, false) => 2_000_000,
     }
 }
 
